@@ -72,6 +72,7 @@ theorem stepW_now (cfg : Cfg) (sh : Shared) (w : Nat) (wk : Worker) : (stepW cfg
   · exact doUnlink_now _ _ _ _ _
   · rfl
   · rfl
+  · rfl
   · exact doRename_now _ _ _ _ _
   · exact doUnlink_now _ _ _ _ _
 
@@ -168,6 +169,8 @@ theorem stepW_winv (cfg : Cfg) (g : Nat) (hk : cfg.kind = .openExcl) (hg : cfg.g
     exact doRename_winv g sh w wk live _ _ rfl rfl rfl rfl (by simp [hpc]) hw
   · -- tkUnlink
     exact doUnlink_winv g sh w wk live _ _ rfl rfl rfl rfl (by simp [hpc]) hw
+  · -- tkRestart: the timer is restarted at the present clock
+    exact ⟨hw.seen, fun _ m h => hw.seen m h, fun h => by simp [inWindow] at h⟩
   · -- sleep
     exact ⟨hw.seen, fun _ => hw.timer (by simp [hpc]), fun h => by simp [inWindow] at h⟩
   · -- crit
